@@ -125,6 +125,8 @@ def run_history(item):
                     vals = [row_vector(r) for r in rs]
                     o["finite"] = all(isinstance(v, tuple) or bool(np.all(np.isfinite(v))) for v in vals)
                     o["min"] = min([float(v.min()) for v in vals if not isinstance(v, tuple) and v.size] or [0.0])
+                    if item.get("return_values"):
+                        o["vals"] = [v[1] if isinstance(v, tuple) else [float(t) for t in v[:256]] for v in vals]
                 except Exception as e:  # noqa
                     o["raised"] = True
                     o["exc"] = "rows: " + type(e).__name__ + ": " + str(e)[:200]
